@@ -1,50 +1,67 @@
 """C14 - Colang 1.0 dialog flows are followed like structured programs.
 
-Bounded exhaustive co-simulation of the real decision function
-`nemoguardrails.colang.v1_0.runtime.flows.compute_next_steps` (Colang text -> real parser ->
-real FlowConfigs) against a boring reference interpreter over the generator's own program tree.
+Bounded exhaustive co-simulation of the real Colang 1.0 runtime (Colang text -> real parser -> a real
+RuntimeV1_0 object: _init_flow_configs, _compute_next_steps = compute_next_steps, _process_start_action,
+generate_events) against a boring reference interpreter over the generator's own program tree.
 
-  programs   every program  `define flow f1: user u0; $c = 0; <block>`  [+ `define subflow s1: <block>`]
-             + a fixed second flow f2, where <block> ranges over ALL statement trees with <= n nodes
-             (smallest first) of
-               FULL grammar  : user <fresh intent> | bot <fresh msg> | $c = 0 | $c = 1 | $c = $c + 1 |
-                               $r = execute <fresh action> | do s1 | if <cond> [else] | while $c < k
-                               cond in {$c == 0, $c == 1, $r == 1}, k in {1, 2}
-               NEST grammar  : (deeper sizes, offsets only depend on the shape) bot | user | $c = $c + 1 |
-                               if $c == 1 [else] | while $c < 2
+  programs   every program  `define flow f1: user u0; $c = 0; <block>`  [+ `define subflow s1: <block>`
+             [+ `define subflow s2: <block>`]] + a fixed second flow f2, where <block> ranges over ALL
+             statement trees with n nodes (smallest first) of four grammars (GRAMMARS):
+               full : user <own intent> | bot <own msg> | $c = 0 | $c = 1 | $c = $c + 1 |
+                      $r = execute <own action>(p=$c) | do s1 | if <cond> [else] | while $c < k
+                      cond in {$c == 0, $c == 1, $r == 1}, k in {1, 2}
+               nest : (deeper sizes, offsets only depend on the shape) bot | user | $c = $c + 1 |
+                      if $c == 1 [else] | while $c < 2
+               ctl  : bot | user | $c = $c + 1 | stop | break | continue | if $c == 1 [else] | while $c < 2 |
+                      when user <i> ... [else when user <j> ...]    (1-2 branches, non-empty bodies)
+               nsub : bot | user | $c = 1 | do <subflow> | if $c == 0/1 [else];  f1 calls s1, s1 calls s2
+                      (so a subflow may START with `do s2`, and s2 may start with a user step)
              filtered to ordinary structured programs: every variable read is definitely assigned, every
-             loop body has a top-level user step or a top-level increment with no other assignment to the
-             counter (so the loop terminates), `do` only with a subflow, subflow used when defined.
+             loop iteration waits for the user or increments the counter (no other assignment to it)
+             before it can `continue`, break/continue only inside a loop, nothing after stop/break/
+             continue in their block, `do` only with a subflow, subflows used when defined.
              Every user / bot / execute statement has its own name, intents of different flows are disjoint.
-  driver     plays RuntimeV1_0.generate_events by hand: call compute_next_steps(history, ...), append the
-             decided events; after a StartInternalSystemAction append what _process_start_action appends
-             (ContextUpdate when the value changes, InternalSystemActionFinished) for EVERY scripted result
-             in {0,1} (only 1 when no condition reads $r); no decision -> Listen -> user point, where the
-             history branches over {intent the flow waits for, start intent of f1, start intent of f2,
-             an unknown intent, intent a left flow was waiting for}.  BFS over all such histories with
-             <= max_user user turns, <= max_dev turns that are not the expected continuation and
-             <= max_zero actions returning 0 (bounds per program group: see plan(); a history in which a
-             left flow becomes involved is followed to the end of that turn only).
-  oracle     reference(history) = structured-program semantics (sequence, if/else, while, assignment,
+             `when/else when` and `stop` are in docs/user_guides (syntax guide, rails examples); `break` and
+             `continue` are keywords of the v1 parser that the docs do not describe - they are given their
+             conventional loop meaning and live in the `ctl` groups only.
+  driver     plays RuntimeV1_0.generate_events by hand with the runtime's own methods: _compute_next_steps
+             (history), append the decided events; after a StartInternalSystemAction the real
+             _process_start_action with a registered stub action (returns the scripted result, records the
+             argument it was called with) for EVERY scripted result in {0,1} (only 1 when no condition reads
+             $r); no decision -> Listen -> user point, where the history branches over {intents the flow
+             waits for, start intent of f1, start intent of f2, an unknown intent, intents a left flow was
+             waiting for}.  BFS over all such histories with <= max_user user turns, <= max_dev turns that
+             are not the expected continuation and <= max_zero actions returning 0 (bounds per program
+             group: see plan(); a history in which a left flow becomes involved is followed to the end of
+             that turn only).  Every turn in which an action ran is also produced in one go by the real
+             generate_events on the used runtime and must equal the events collected step by step.
+  oracle     reference(history) = structured-program semantics (sequence, if/else, while, break, continue,
+             assignment, when = wait for one of the branch intents, stop = `bot stop` and the flow is over,
              subflow call = inlined block, one global context dict).  Demanded (strict):
                * history follows a flow (from its start intent) -> decided step == that flow's next
-                 statement (bot / action start / nothing = wait), and the context visible to the host
-                 (compute_context over history + decided events) has the reference values of $c, $r;
+                 statement (bot / action start / nothing = wait), the context visible to the host
+                 (compute_context over history + decided events) has the reference values of $c, $r, and
+                 `execute a(p=$c)` calls the action with the reference value of $c;
                * an intent that starts another (not already left) flow -> that flow's first statement(s);
                * an intent no flow knows -> nothing is decided (no step of the abandoned flow);
              NOT demanded (docs are silent): anything that involves a flow that was left earlier (resume or
              not).  Such histories are still evaluated for the second clause only.
-  2nd clause every history is evaluated on the long-lived flow_configs used for all earlier calls of the
-             program's BFS and on a pristine copy of an independent second parse: identical decisions; the
-             first histories are evaluated once more on the used configs after all other calls.
+  2nd clause every history is evaluated on the long-lived runtime used for all earlier calls of the program's
+             BFS (decisions, action executions, whole turns) and on a runtime built from a pristine copy of an
+             independent second parse: identical decisions, identical events and action arguments from
+             _process_start_action; the first histories are evaluated once more on the used runtime after
+             all other calls.
   classes    signature = kind : path of the statement the flow stood at -> path of the expected statement :
-             constructs the reference executed in between : how the decision differs.  One input class has a
-             signature of its own (INSTANT_SIG): histories in which some flow ran from its start intent to
-             its end within that one event (only assignments / conditions after `user ...`) - the runtime
-             keeps such a flow instance alive with a negative head, every later decision may be affected.
+             constructs the reference executed in between : how the decision differs.  Three input classes
+             have a signature of their own:
+               INSTANT_SIG  some flow ran from its start intent to its end within that one event earlier in
+                            the history (fixed in the library; must stay silent)
+               NESTED_SIG   a subflow called a subflow before doing anything else (`do s2` is the first
+                            statement it executes)
+               WHEN_SIG     a `when` block directly followed by another `when` block was entered
   replay     program text + script of user intents / action results; histories are rebuilt with plain calls.
-             For a used-vs-fresh difference the (script, round) ids of all earlier calls on the used configs
-             are stored and repeated first.
+             For a used-vs-fresh difference all earlier calls on the used runtime (decision, action execution,
+             whole turn) are stored and repeated first, in order.
 """
 from __future__ import annotations
 
@@ -812,7 +829,8 @@ class World:
 
     def eval_used(self, hist, nid=None):
         self.calls += 1
-        self.trace.append(nid)
+        if nid is not None:
+            self.trace.append(["d", nid[0], nid[1]])
         del self.plog[:]
         return guarded(lambda: _run(self.rt_used._compute_next_steps(hist, processing_log=self.plog)))
 
@@ -878,8 +896,8 @@ def check_node(W, ahist, hist, r, k=0):
         viol.append((
             "dependence",
             f"earlier-calls-matter:{where}:{feats}",
-            f"the SAME history gives {_show_res(nu)} on the flow configs used for the earlier calls but "
-            f"{_show_res(nf)} on a freshly parsed copy",
+            f"the SAME history gives {_show_res(nu)} on the runtime used for the earlier calls but "
+            f"{_show_res(nf)} on a freshly parsed copy{_field_diff(nu, nf)}",
         ))
         return None, viol, None
     if ru[0] != "ok":
@@ -958,6 +976,18 @@ def _short(path):
     return pre + ">".join(parts[-3:]) if len(parts) > 3 else pre + path
 
 
+def _field_diff(nu, nf):
+    """which event fields differ when the summaries look the same"""
+    if nu[0] != "ok" or nf[0] != "ok" or len(nu[1]) != len(nf[1]):
+        return ""
+    out = []
+    for a, b in zip(nu[1], nf[1]):
+        for key in sorted(set(a) | set(b)):
+            if a.get(key) != b.get(key):
+                out.append(f"{a.get('type')}.{key}: used {a.get(key)!r} / fresh {b.get(key)!r}")
+    return (" [" + "; ".join(out) + "]") if out else ""
+
+
 def _show_res(n):
     if n[0] != "ok":
         return f"exception {n[1]}"
@@ -996,7 +1026,7 @@ def explore(task):
     unk = UNKNOWN_INTENT
     W.trace = []
 
-    def add_viol(kind, sig, text, ahist, hist_len, k=0):
+    def add_viol(kind, sig, text, ahist, hist_len, k=0, extra=None):
         counts["violating_histories"] += 1
         v = viols.get(sig)
         script = [list(e) for e in ahist if e[0] in ("user", "done")]
@@ -1006,8 +1036,8 @@ def explore(task):
                 "signature": sig, "n": n + 1,
                 "size": (prog_size(P), len(script), hist_len, len(W.src)),
                 "what": f"program `{_oneline(W.src)}` script {_show_script(script)}: {text}",
-                "replay": {"source": W.src, "program": P, "order": list(order), "script": script, "k": k,
-                           "kind": kind, "detail": text},
+                "replay": dict({"source": W.src, "program": P, "order": list(order), "script": script, "k": k,
+                                "kind": kind, "detail": text}, **(extra or {})),
                 "_trace_len": len(W.trace) - 1,
             }
         else:
@@ -1093,12 +1123,17 @@ def explore(task):
                     turn_results.append(e[2])
             if turn_results:
                 counts["turns_compared_with_generate_events"] += 1
+                turn_script = node_id(ahist, 0)[0]
+                while turn_script and turn_script[-1][0] != "user":
+                    turn_script.pop()
+                W.trace.append(["t", turn_script, list(reversed(turn_results))])
                 whole = W.whole_turn(hist[:turn_at], list(reversed(turn_results)))
                 stepwise = norm(("ok", hist[turn_at:] + [_LIB["new_event_dict"]("Listen")]))
                 if norm(whole) != stepwise:
                     add_viol("turn", "generate_events-differs-from-stepwise-calls",
                              f"generate_events on the used runtime produced {_brief_res(whole)} for this turn, the "
-                             f"step-by-step calls {[_ev_brief(e) for e in stepwise[1]]}", ahist, len(hist), k)
+                             f"step-by-step calls {[_ev_brief(e) for e in stepwise[1]]}", ahist, len(hist), k,
+                             {"turn": [turn_script, list(reversed(turn_results))]})
                     continue
             if terminal or not strict or n_user >= max_user:
                 continue
@@ -1111,6 +1146,7 @@ def explore(task):
                 if res == 0 and zeros >= opts["max_zero"]:
                     continue
                 ah2 = ahist + (("done", step[1], res),)
+                W.trace.append(["a"] + list(node_id(ahist, k)) + [res])
                 au, arg_u = W.action(W.rt_used, h2, res)
                 af, arg_f = W.action(W.fresh(), h2, res)
                 counts["actions_executed_used_and_fresh"] += 1
@@ -1159,7 +1195,7 @@ def explore(task):
     for v in viols.values():
         n = v.pop("_trace_len")
         if v["replay"]["kind"] in ("dependence", "action-dependence", "turn"):
-            v["replay"]["earlier_calls_on_used_configs"] = [list(t) for t in W.trace[:max(n, 0)] if t is not None]
+            v["replay"]["earlier_calls_on_used_configs"] = W.trace[:max(n, 0)]
     return {"idx": idx, "counts": counts, "features": feat_counts, "violations": list(viols.values()),
             "sample": sample, "size": prog_size(P), "grammar": opts["grammar"]}
 
@@ -1209,7 +1245,6 @@ def plan(tier):
             out.append(("nsub", n, programs("nsub", n, (1, 2, 3), (1, 2)), "simple", small))
         for n in (1, 2, 3, 4):
             out.append(("ctl", n, programs("ctl", n), "simple", small))
-        out.append(("nest", 5, programs("nest", 5), "simple", small))
         out.append(("full", 4, programs("full", 4, (1, 2)), "simple", small))
     else:
         for n in (1, 2, 3):
@@ -1288,23 +1323,25 @@ def run(rep, tier):
     rep.assumptions += [
         "programs: all statement trees within the size bounds of the two grammars in the module docstring, "
         "restricted to well-formed terminating structured programs; names are canonical (one per statement)",
-        "histories: what RuntimeV1_0.generate_events would build around compute_next_steps for the user's flows alone "
-        "(no LLM system flows): UserIntent, decided events, ContextUpdate/InternalSystemActionFinished of a stub "
-        "action (results 0 and 1), Listen",
+        "histories: what RuntimeV1_0.generate_events builds for the user's flows alone (no LLM system flows): "
+        "UserIntent, events decided by _compute_next_steps, the events _process_start_action appends for a stub "
+        "action (results 0 and 1), Listen; turns with actions are cross-checked against generate_events itself",
+        "the runtime object is a real RuntimeV1_0 whose expensive constructor is skipped (attributes set by hand, "
+        "flow configs from its own _init_flow_configs)",
+        "`break` / `continue` are not described in the Colang 1.0 docs; they get their conventional meaning (ctl groups)",
         "demanded only while the conversation follows a flow from its start intent, starts another flow that was not "
         "left before, or contains an intent no flow knows; histories that involve a flow left earlier are only "
         "checked for identical decisions on the used and the fresh instance",
-        "fresh instance = flow configs built from a deep copy of an independent second parse of the same text",
+        "fresh instance = runtime whose flow configs are built from a pristine copy of an independent second parse",
         "VERIF_SEED only changes the order of the flow definitions in the text and the order of user choices",
     ]
 
 
 # ------------------------------------------------------------------ replay
-def build_history(W, script, k, on_used=False):
+def build_history(W, script, k):
     """the history of node (script, k): all script entries consumed, then k further decision rounds.
-    Decisions and action events are taken from FRESH runtimes, so building a history never touches the
-    used one - except with on_used=True (repeating the earlier calls of a search): then the used runtime
-    makes the same decision and action calls the search made along this path."""
+    Decisions and action events are taken from FRESH runtimes: building a history never touches the
+    used one."""
     hist, pos, waiting, since = [], 0, True, 0
     while True:
         if waiting or hist[-1]["type"] == "StartInternalSystemAction":
@@ -1317,8 +1354,6 @@ def build_history(W, script, k, on_used=False):
                 hist = hist + W.user_events(e[1], not hist)
                 waiting = False
             else:
-                if on_used:
-                    W.action(W.rt_used, hist, e[2])
                 res, _ = W.action(W.fresh(), hist, e[2])
                 if res[0] != "ok":
                     return None
@@ -1326,8 +1361,6 @@ def build_history(W, script, k, on_used=False):
             continue
         if pos == len(script) and since == k:
             return hist
-        if on_used:
-            W.eval_used(hist)
         res = W.eval_fresh(hist)
         if res[0] != "ok":
             return None
@@ -1336,6 +1369,25 @@ def build_history(W, script, k, on_used=False):
             hist = hist + res[1]
         else:
             waiting = True
+
+
+def repeat_earlier_calls(W, earlier):
+    """make the calls a search made on the used runtime before the reported one, in the same order"""
+    for t in earlier:
+        sc = [tuple(e) for e in t[1]]
+        if t[0] == "d":
+            h = build_history(W, sc, t[2])
+            if h is not None:
+                W.eval_used(h)
+        elif t[0] == "a":
+            h = build_history(W, sc, t[2])
+            d = W.eval_fresh(h) if h is not None else ("exc",)
+            if d[0] == "ok" and d[1] and d[1][-1]["type"] == "StartInternalSystemAction":
+                W.action(W.rt_used, h + d[1], t[3])
+        elif t[0] == "t":
+            h = build_history(W, sc, 0)
+            if h is not None:
+                W.whole_turn(h, t[2])
 
 
 def replay(rp):
@@ -1347,16 +1399,9 @@ def replay(rp):
     kind = rp.get("kind")
     if kind in ("dependence", "action-dependence", "turn"):
         earlier = rp.get("earlier_calls_on_used_configs") or []
-        print(f"repeating the {len(earlier)} earlier decision calls of the search (and the action executions on "
-              f"their paths) on the used runtime ...")
-        done = set()
-        for sc, k in earlier:
-            key = (repr(sc), k)
-            sc = [tuple(e) for e in sc]
-            h = build_history(W, sc, k, on_used=repr(sc) not in done)
-            done.add(repr(sc))
-            if h is not None:
-                W.eval_used(h)
+        print(f"repeating the {len(earlier)} earlier calls of the search (decisions, action executions, whole turns) "
+              f"on the used runtime ...")
+        repeat_earlier_calls(W, earlier)
         if kind == "action-dependence":
             h = build_history(W, script[:-1], rp.get("k", 0))
             steps = W.eval_fresh(h)[1]
@@ -1366,11 +1411,18 @@ def replay(rp):
             af, arg_f = W.action(W.fresh(), h, script[-1][2])
             print(f"  _process_start_action on the used runtime : action called with p={arg_u!r}, appended {_brief_res(au)}")
             print(f"  _process_start_action on a fresh runtime  : action called with p={arg_f!r}, appended {_brief_res(af)}")
+        elif kind == "turn":
+            h = build_history(W, [tuple(e) for e in rp["turn"][0]], 0)
+            print("history at the start of the turn:", [_ev_brief(e) for e in h])
+            print("  generate_events on the used runtime :", _brief_res(W.whole_turn(h, rp["turn"][1])))
+            full = build_history(W, script, rp.get("k", 0))
+            print("  step-by-step (fresh runtimes)       :", [_ev_brief(e) for e in full[len(h):]] + ["Listen"])
         else:
             h = build_history(W, script, rp.get("k", 0))
             print("history:", [_ev_brief(e) for e in h])
-            print("  decided on the used runtime  :", _show_res(norm(W.eval_used(h))))
-            print("  decided on a fresh runtime   :", _show_res(norm(W.eval_fresh(h))))
+            nu, nf = norm(W.eval_used(h)), norm(W.eval_fresh(h))
+            print("  decided on the used runtime  :", _show_res(nu))
+            print("  decided on a fresh runtime   :", _show_res(nf), _field_diff(nu, nf))
         print("recorded:", rp.get("detail"))
         return 0
     ahist, hist = (), []
